@@ -125,7 +125,7 @@ def ident(chk, facts, bm_ast):
         chk.ob(rule, vn, not problems, "ExprKind::%s -> builder.%s%s" % (vn, m, (": " + "; ".join(problems)) if problems else " rebuilds the same node from the same fields in order"),
                where=f.where(e["line"]), fn=f.name, key="%s:%s" % (rule, vn),
                sample={"variant": vn, "method": m, "builds": b["sig"], "args": [sorted(a) for a in e["args"]]})
-    chk.floor(rule, "ExprKind arms", n, 16)
+    chk.floor(rule, "ExprKind arms", n, 15)
     return amap
 
 
@@ -280,7 +280,7 @@ def pst_ops(chk, facts, bm_pst):
                 want = "UnaryOp(op=UnaryOp::%s,expr=$2)" % xn
             chk.ob(rule, "%s::%s" % (node, xn), sig == want, "pst %s::%s -> builder.%s, with which PstBuilder builds %s; required %s" % (node, xn, m, sig, want),
                    where=f.where(t[1].get("l")), fn=f.name, key="%s:%s:%s" % (rule, node, xn), sample={"op": xn, "method": m, "builder_builds": sig})
-    chk.floor(rule, "operator arms", n, 42)
+    chk.floor(rule, "operator arms", n, 38)
 
 
 def run(chk, facts, tier):
